@@ -293,8 +293,9 @@ inductive CbsErr
   | fuel          -- the model ran out of fuel (proved impossible)
 deriving DecidableEq, Repr
 
-/-- `int(min_fraction * batch_size)` for `min_fraction = num/den` (truncation toward zero) -/
-def minBatch (num den : Nat) (b : Int) : Int := Int.tdiv ((num : Int) * b) (den : Int)
+/-- `max(int(min_fraction * batch_size), 2)` for `min_fraction = num/den` (truncation toward zero; the floor of 2
+is the `fix:` of finding F57 — a final batch of a single sample is never accepted) -/
+def minBatch (num den : Nat) (b : Int) : Int := max (Int.tdiv ((num : Int) * b) (den : Int)) 2
 
 /-- the `while True` loop; `b` is the batch size BEFORE `batch_size -= 1` -/
 def cbsLoop (len : Nat) (mb : Int) : Nat → Int → Except CbsErr Int
